@@ -25,3 +25,5 @@ pub mod txc;
 pub mod cut;
 pub mod txn;
 pub mod cutm;
+pub mod comp;
+mod gen_comp;
